@@ -63,6 +63,12 @@ _NAME = r'("[^"]*"|[^\s()]+)'
 
 class SXFM:
     def __init__(self, text: str) -> None:
+        # the envelope: SXFM is an XML document <feature_model name=...> holding <feature_tree> and <constraints>
+        env = re.fullmatch(r"\s*(?:<\?xml[^>]*\?>\s*)?<feature_model\b[^>]*\bname=\"[^\"]*\"[^>]*>(.*)</feature_model>\s*", text, re.S)
+        if not env:
+            raise ExportError("SXFM: the document is not one <feature_model name=\"...\"> ... </feature_model> element")
+        if env.group(1).count("<feature_tree>") != 1 or env.group(1).count("<constraints>") != 1:
+            raise ExportError("SXFM: the model does not hold exactly one <feature_tree> and one <constraints> section")
         m = re.search(r"<feature_tree>\n(.*?)\n?</feature_tree>", text, re.S)
         c = re.search(r"<constraints>\n?(.*?)\n?</constraints>", text, re.S)
         if not m or c is None:
